@@ -32,8 +32,8 @@ REAL = {"u1": "gemini://h1.ex/a", "u2": "gemini://h1.ex/a?x=1", "u3": "gemini://
         "u5": "gemini://h3.ex/deep/er", "u6": "gemini://h2.ex:1966/a/", "u7": "gemini://h3.ex/"}
 INV = {v: k for k, v in REAL.items()}
 # other spellings of the same URLs (same normal form): a server may write its redirect targets any of these ways
-VARIANTS = {"u1": ["gemini://h1.ex:1965/a", "gemini://h1.ex/a?", "gemini://H1.EX/a"], "u2": ["gemini://h1.ex:1965/a?x=1"],
-            "u3": ["gemini://H2.ex:1966/a"], "u4": ["gemini://h1.EX:1966/a?"], "u5": ["gemini://h3.ex:1965/deep/er"],
+VARIANTS = {"u1": ["gemini://h1.ex:1965/a", "gemini://h1.ex/a?", "gemini://H1.EX/a", "GEMINI://h1.ex/a"], "u2": ["gemini://h1.ex:1965/a?x=1", "Gemini://h1.ex/a?x=1"],
+            "u3": ["gemini://H2.ex:1966/a", "gEmInI://h2.ex:1966/a"], "u4": ["gemini://h1.EX:1966/a?"], "u5": ["gemini://h3.ex:1965/deep/er", "GEMINI://h3.ex/deep/er"],
             "u6": ["gemini://h2.ex:1966/a/?"], "u7": ["gemini://h3.ex", "gemini://h3.ex:1965", "gemini://h3.ex?"]}
 
 
@@ -51,7 +51,7 @@ def meta_for(ans, rnd, spell=REAL):
         return "3%d %s" % (rnd.choice([0, 1, 0, 1, 2, 5, 9]), spell[ans["to"]])       # every 3x status is a redirect
     if k == "nongemini":
         return "30 " + rnd.choice(["https://example.com/", "http://h1.ex/a", "gopher://h1.ex/", "mailto:a@b", "titan://h1.ex/a;size=0",
-                                   "geminix://h1.ex/", "Gemini://h1.ex/a", "//h1.ex/a"])
+                                   "geminix://h1.ex/", "//h1.ex/a"])
     if k == "relative":
         return "31 " + rnd.choice(["/other", "other", "../up", "?q=1", "./"])
     if k == "empty":
